@@ -85,6 +85,7 @@ template <class T, glm::qualifier Q, int K, int R, int C> static void reg_matmul
 	add_op(nm<T, Q>("mul", shape.c_str()), strdup((std::string(1, tl) + "F" + std::to_string(K * R) + " " + std::string(1, tl) + "F" + std::to_string(C * K)).c_str()), strdup((std::string(1, tl) + std::to_string(C * R)).c_str()), 'U', 'U', 8,
 	       FN { STM(out, LDM<K, R, T, Q>(in) * LDM<C, K, T, Q>(in + K * R)); }, SC { return K * amax<T>(in, 0, K * R) * amax<T>(in, K * R, C * K); });
 }
+template <int N> static inline int scaled_k(int32_t raw) { const int kmax = 130 / N; return (int)(((unsigned)raw) % (unsigned)(2 * kmax + 1)) - kmax; }
 template <class T, glm::qualifier Q, int N> static void reg_square() {
 	const char tl = (char)SA<T>::L; std::string shape = "mat" + std::to_string(N) + "x" + std::to_string(N); std::string sN = std::to_string(N * N);
 	const char* aM = strdup((std::string(1, tl) + "F" + sN).c_str()); const char* aW = strdup((std::string(1, tl) + "W" + sN).c_str()); const char* oM = strdup((std::string(1, tl) + sN).c_str());
@@ -92,14 +93,21 @@ template <class T, glm::qualifier Q, int N> static void reg_square() {
 	       SC { long double m = amax<T>(in, 0, N * N), p = 1; for (int i = 0; i < N; ++i) p *= m; return p * (N == 4 ? 24 : N == 3 ? 6 : 2); });
 	// inverse on well-conditioned inputs (domain W: identity-dominant matrix I*d + small perturbation)
 	add_op(nm<T, Q>("inverse", shape.c_str()), aW, oM, 'U', 'R', 256, FN { STM(out, glm::inverse(LDM<N, N, T, Q>(in))); }, SC { return 1.0L; });
-	// the same well-conditioned matrix scaled by 2^k, k in [-31, 31]: the determinant runs to both ends of the exponent range, where a
-	// hardware reciprocal estimate (0 above 2^126, inf for subnormals) would show even after Newton steps
+	// the same well-conditioned matrix scaled by 2^k, |k| <= 130 / N: the determinant runs to both ends of the exponent range (for float
+	// into the subnormals and up to 2^127), where a hardware reciprocal estimate (0 above 2^126, inf for subnormals) shows even after
+	// Newton steps. Compared whenever both det and 1/det are finite in every correct implementation: 2^-127.5 <= |det| <= 2^127.5 for
+	// float (a subnormal det or 1/det carries a relative error of at most 2^-20.5, a few ulps of the result, inside the 256-ulp bound).
 	add_op(nm<T, Q>("inverse_scaled", shape.c_str()), strdup((std::string(aW) + " iE1").c_str()), oM, 'U', 'R', 256,
-	       FN { glm::mat<N, N, T, Q> m = LDM<N, N, T, Q>(in); int k = (int)(((unsigned)in[N * N].i) % 63u) - 31; m = m * (T)std::ldexp(1.0, k); STM(out, glm::inverse(m)); },
-	       SC { int k = (int)(((unsigned)in[N * N].i) % 63u) - 31; return ldexpl(1.0L, -k); },
-	       SC {  // determinant (about 2^(N k) times 1..256) must stay a normal number of T well inside the range
-		       int k = (int)(((unsigned)in[N * N].i) % 63u) - 31; long double lg = (long double)N * k;
-		       long double lim = (sizeof(T) == 4 ? 118.0L : 1000.0L);
+	       FN { glm::mat<N, N, T, Q> m = LDM<N, N, T, Q>(in); int k = scaled_k<N>(in[N * N].i); m = m * (T)std::ldexp(1.0, k); STM(out, glm::inverse(m)); },
+	       SC { int k = scaled_k<N>(in[N * N].i); return ldexpl(1.0L, -k); },
+	       SC {
+		       int k = scaled_k<N>(in[N * N].i);
+		       long double a[N][N];
+		       for (int col = 0; col < N; ++col) for (int r = 0; r < N; ++r) a[col][r] = (long double)(sizeof(T) == 4 ? (double)in[col * N + r].f : in[col * N + r].d);
+		       long double det = 1;  // Gaussian elimination; the matrix is diagonally dominant, no pivoting needed
+		       for (int i = 0; i < N; ++i) { det *= a[i][i]; for (int j = i + 1; j < N; ++j) { long double f = a[j][i] / a[i][i]; for (int l = i; l < N; ++l) a[j][l] -= f * a[i][l]; } }
+		       long double lg = log2l(fabsl(det)) + (long double)N * k;
+		       long double lim = (sizeof(T) == 4 ? 127.5L : 1000.0L);
 		       return (lg > lim || lg < -lim) ? 0.0L : 1.0L; });
 	add_op(nm<T, Q>("inverseTranspose", shape.c_str()), aW, oM, 'U', 'R', 256, FN { STM(out, glm::inverseTranspose(LDM<N, N, T, Q>(in))); }, SC { return 1.0L; });
 	add_op(nm<T, Q>("div_mat", shape.c_str()), strdup((std::string(aM) + " " + aW).c_str()), oM, 'U', 'R', 256, FN { STM(out, LDM<N, N, T, Q>(in) / LDM<N, N, T, Q>(in + N * N)); }, SC { return N * amax<T>(in, 0, N * N); });
